@@ -240,7 +240,8 @@ def eval_len(text, ctx, cfg):
 
 
 def _need(buf, pos, n):
-    if pos + n > len(buf):
+    # a zero-size read needs nothing, also when the position lies in padding beyond the end of the input
+    if n and pos + n > len(buf):
         raise ModelEOF(f"need {n} at {pos}, have {len(buf)}")
 
 
